@@ -163,7 +163,9 @@ func runPairStall(a *args, res *result) {
 		}
 	case "C12":
 		kinds = []string{"Map", "MapOf[string,any]", "Cache", "CacheOf[string,any]"}
-	case "C05", "C11", "C13":
+	case "C11":
+		kinds = []string{"Map", "MapOf[int,val]"}
+	case "C05", "C13":
 		kinds = []string{"Map", "MapOf[int,val]", "Cache", "CacheOf[int,val]"}
 	}
 	if a.prop == "C05" || a.prop == "C11" || a.prop == "C12" || a.prop == "C13" {
